@@ -9,6 +9,8 @@ open MdVerif.FencedPipe
 #print axioms C03_fenced_before_paragraph
 #print axioms C03_fenced_between_paragraphs
 #print axioms C03_fenced_document
+#print axioms C03_fenced_other_extensions
+#print axioms C03_fenced_extensions_inert
 #print axioms C03_fenced_any_body
 #print axioms C03_fenced_normBody_id
 #print axioms C03_fenced_html_reads_back
